@@ -1,1 +1,90 @@
-fn main() {}
+//! The repository's real `main()` (hook H8) executed inside ONE simulated execution: the
+//! rayon / atomic / mutex stand-ins, the seeded scheduler, keyed sampling and the core-count
+//! override apply exactly as in the in-process checks; argument parsing, input reading, the
+//! parsers, solving, clipping and JSON output are the unmodified sources of src/main.rs.
+//!
+//! Controlled through the environment (all optional):
+//!   CFR_VERIF_SCHED_POLICY  random | nopreempt | pct:<changes>:<horizon>     (default nopreempt)
+//!   CFR_VERIF_SCHED_SEED    u64
+//!   CFR_VERIF_SAMPLING_SEED u64   (absent: real thread_rng entropy)
+//!   CFR_VERIF_CORES         unknown | <n>   (absent: ask the OS)
+//!   CFR_VERIF_BUGGIFY       0 | 1
+//!   CFR_VERIF_REPORT        path of a JSON report written after main() returned
+use cfr_verif_seam as seam;
+use harness::sched::{Policy, SchedSpec};
+use shuttle::scheduler::{Schedule, Scheduler, Task, TaskId};
+use std::sync::{Arc, Mutex};
+
+fn env_u64(k: &str) -> Option<u64> {
+    std::env::var(k).ok().and_then(|s| s.parse().ok())
+}
+
+struct Fwd(Box<dyn Scheduler + Send>);
+impl Scheduler for Fwd {
+    fn new_execution(&mut self) -> Option<Schedule> {
+        self.0.new_execution()
+    }
+    fn next_task(&mut self, r: &[&Task], c: Option<TaskId>, y: bool) -> Option<TaskId> {
+        self.0.next_task(r, c, y)
+    }
+    fn next_u64(&mut self) -> u64 {
+        self.0.next_u64()
+    }
+}
+
+fn main() {
+    let seed = env_u64("CFR_VERIF_SCHED_SEED").unwrap_or(0);
+    let policy = match std::env::var("CFR_VERIF_SCHED_POLICY").unwrap_or_default().as_str() {
+        "random" => Policy::Random,
+        s if s.starts_with("pct:") => {
+            let mut it = s[4..].split(':');
+            let changes = it.next().and_then(|x| x.parse().ok()).unwrap_or(1);
+            let horizon = it.next().and_then(|x| x.parse().ok()).unwrap_or(1000);
+            Policy::Pct { changes, horizon }
+        }
+        _ => Policy::NoPreempt,
+    };
+    let spec = SchedSpec { policy, seed, trace: None };
+    let sampling = env_u64("CFR_VERIF_SAMPLING_SEED");
+    let cores = match std::env::var("CFR_VERIF_CORES").ok().as_deref() {
+        Some("unknown") => seam::Cores::Unknown,
+        Some(n) => n.parse::<usize>().map(seam::Cores::Count).unwrap_or(seam::Cores::Real),
+        None => seam::Cores::Real,
+    };
+    let buggify = std::env::var("CFR_VERIF_BUGGIFY").map(|s| s != "0").unwrap_or(true);
+    let report = std::env::var("CFR_VERIF_REPORT").ok();
+    let out = Arc::new(Mutex::new(harness::sched::SchedOut::default()));
+    let mut cfg = shuttle::Config::new();
+    cfg.stack_size = 8 << 20; // clap and serde run inside the execution
+    cfg.failure_persistence = shuttle::FailurePersistence::None;
+    cfg.silence_warnings = true;
+    cfg.max_steps = shuttle::MaxSteps::FailAfter(200_000_000);
+    let sched = harness::sched::new_scheduler(spec, out.clone());
+    let runner = shuttle::Runner::new(Fwd(sched), cfg);
+    let stats: Arc<Mutex<Option<serde_json::Value>>> = Arc::new(Mutex::new(None));
+    let stats2 = stats.clone();
+    runner.run(move || {
+        seam::begin(seam::Begin { sampling_seed: sampling, cores, record_draws: false, record_visits: false, step_budget: 0 });
+        verif_rayon_shim::control::begin(verif_rayon_shim::control::Plan { fail_build: false, max_spawn: 4096, buggify });
+        harness::real_main::verif::entry();
+        let ctx = seam::end();
+        let ray = verif_rayon_shim::control::end();
+        *stats2.lock().unwrap() = Some(serde_json::json!({
+            "pool_sizes": ray.pool_sizes,
+            "par_calls": ray.par_calls,
+            "max_workers": ray.max_workers,
+            "draws": ctx.draw_counts.len(),
+            "visits": ctx.stats.visits,
+            "cores_unknown_fired": ctx.stats.cores_unknown_fired,
+            "cores_override_fired": ctx.stats.cores_override_fired,
+        }));
+    });
+    if let Some(path) = report {
+        let o = out.lock().unwrap();
+        let mut v = stats.lock().unwrap().take().unwrap_or(serde_json::json!({}));
+        v["sched_steps"] = serde_json::json!(o.steps);
+        v["sched_preemptions"] = serde_json::json!(o.preemptions);
+        v["trace_hash"] = serde_json::json!(format!("{:016x}", o.trace.hash()));
+        let _ = std::fs::write(path, v.to_string());
+    }
+}
